@@ -317,7 +317,7 @@ func init() {
 		},
 		Teardown: closeEngine,
 		Strata: []*fw.Stratum{
-			{Name: "programs", Quick: 1500, Thorough: 15000, Run: runC06},
+			{Name: "programs", Quick: 6000, Thorough: 50000, Run: runC06},
 			{Name: "stmt-matrix", Quick: nf * nf, Thorough: nf * nf, Exhaustive: true, Run: runC06Matrix},
 		},
 	})
